@@ -105,8 +105,36 @@ def run(chk):
                     f"happens to be in (e.g. it trusts that a central block carries the whole norm)")
 
 
+    run_P4(chk)
     from . import e10
     e10.run_U(chk, ("yastn.tn.mps._mps_obc", "yastn.tn.mps._mps_parent", "yastn.tn.mps._compression", "yastn.tn.mps._initialize"), floor1=5, floor2=1)
+
+
+def run_P4(chk):
+    """P4: typestate of the central block.  orthogonalize_site_ creates a central block and refuses to run while one exists; canonize_
+    is the entry point that has to work from *any* state (norm(), get_entropy(), get_Schmidt_values() run it on a shallow copy, which
+    keeps pC): on every path, each call of orthogonalize_site_ in canonize_ is preceded by absorb_central_ since the entry and since the
+    previous orthogonalize_site_."""
+    from ..core.cfg import CFG
+    prog = chk.prog
+    chk.rule("P4", "canonize_ absorbs a central block before every orthogonalize_site_ (from entry and between consecutive sites)", floor=2)
+    O = prog.cls("yastn.tn.mps._mps_obc", "MpsMpoOBC")
+    f = O.methods["canonize_"]
+    cfg = CFG(f.node)
+    par = A.enclosing_map(f.node)
+    orth = [A.stmt_of(c, par) for c in A.calls(f.node) if A.callee_attr(c) == "orthogonalize_site_"]
+    absb = [A.stmt_of(c, par) for c in A.calls(f.node) if A.callee_attr(c) == "absorb_central_"]
+    chk.require(orth, "canonize_: call of orthogonalize_site_ not found")
+    for o in orth:
+        ok_entry = bool(absb) and cfg.must_pass([o], absb)
+        chk.verdict("P4", (f, o), "canonize_: absorb_central_ on every path from entry to orthogonalize_site_", True if ok_entry else False,
+                    "canonize_(): a state that still holds a central block (left by orthogonalize_site_, diagonalize_central_, post_2site_, "
+                    "reverse_sites) reaches orthogonalize_site_, which refuses to create a second one: norm(), get_entropy() and "
+                    "get_Schmidt_values() fail on such a state")
+        again = cfg.path_exists(o, o, avoiding=absb)
+        chk.verdict("P4", (f, o), "canonize_: absorb_central_ between consecutive orthogonalize_site_", False if again else True,
+                    "canonize_(): two orthogonalize_site_ calls can follow each other without absorbing the central block in between")
+
 
 def run_P3(chk):
     """shallow_copy carries every mutable state field of the MPS (fields set in _MpsMpoParent.__init__ and written again elsewhere)"""
